@@ -21,7 +21,8 @@ EXACTLY (DESIGN 2.5):
 Everything else of the sched alphabet is used: weights {unset, 1, 10, 10, 50} with ties, per-pool limits
 (cpu / memory / nodes) with existing nodes already charged to them, taints (NoSchedule / NoExecute /
 PreferNoSchedule), startup taints, pool requirements with and without minValues, per-pool catalogs, pools that
-are not Ready or being deleted, stale hash annotations, price ties, unavailable cheap offerings, a reduced
+are not Ready or being deleted, stale hash annotations, minValues floors on arch / gen / zone (single-valued per type: which types survive
+the truncation decides), catalogs larger than the cap in provider orders unrelated to the price order, price ties, unavailable cheap offerings, a reduced
 scheduling.MaxInstanceTypes, both minValues policies, 1/2/8 evaluation workers, CreateNodeClaims."""
 import copy
 
@@ -32,7 +33,7 @@ WEIGHTS = [0, 0, 1, 10, 10, 10, 50]
 
 
 def gen_catalog(rng):
-    n = rng.choice([2, 3, 3, 4, 5, 6])
+    n = rng.choice([2, 3, 3, 4, 5, 6, 7, 8])       # often more compatible types than scheduling.MaxInstanceTypes (1-3)
     types = []
     for i in range(n):
         cpu, mem = rng.choice(sc.SIZES)
@@ -82,10 +83,19 @@ def gen_pools(rng, types):
             p["reqs"].append({"key": "it", "op": "In", "vals": sub, "n": 0, "min": rng.choice([0, 0, 2, 2, 3])})
         elif rng.random() < 0.12:
             p["reqs"].append({"key": "it", "op": "Exists", "vals": [], "n": 0, "min": rng.choice([2, 3])})
-        if rng.random() < 0.15:
-            p["reqs"].append({"key": "gen", "op": rng.choice(["Gt", "Lt"]), "vals": [], "n": rng.choice([1, 2, 3]), "min": 0})
-        if rng.random() < 0.15:
+        # minValues floors on keys OTHER than the instance type: whether k types reach the floor depends on WHICH k types survive
+        # the truncation (architecture / generation are single-valued per type), not only on k
+        r = rng.random()
+        if r < 0.12:
+            p["reqs"].append({"key": "gen", "op": rng.choice(["Gt", "Lt"]), "vals": [], "n": rng.choice([1, 2, 3]), "min": rng.choice([0, 0, 2])})
+        elif r < 0.24:
+            p["reqs"].append({"key": "gen", "op": "Exists", "vals": [], "n": 0, "min": rng.choice([2, 2, 3])})
+        r = rng.random()
+        if r < 0.12:
             p["reqs"].append({"key": "arch", "op": "In", "vals": [rng.choice(["amd64", "arm64"])], "n": 0, "min": 0})
+        elif r < 0.27:
+            p["reqs"].append(rng.choice([{"key": "arch", "op": "Exists", "vals": [], "n": 0, "min": 2},
+                                         {"key": "arch", "op": "In", "vals": ["amd64", "arm64"], "n": 0, "min": 2}]))
         r = rng.random()
         if r < 0.2:
             p["reqs"].append({"key": "team", "op": "In", "vals": ["x", "y"], "n": 0, "min": 0})
@@ -322,7 +332,33 @@ def cells():
     for s in out:
         for w in (1, 2, 8):
             res.append(sc.with_options(s, {"workers": w}, "k%d" % w))
-    return res
+    return res + truncation_cells()
+
+
+def truncation_cells():
+    """Truncation vs minValues on keys other than the instance type: five equally sized types, one pod that fits them all, a floor of
+    2 distinct values on arch / gen / zone, MaxInstanceTypes 2 and 3, both policies.  Three catalogs (the second value exists only among
+    the DEAREST types / among the cheapest / interleaved) in five PROVIDER orders (cheap first, dear first, the rare value first,
+    interleaved, shuffled): whether the floor survives must be decided on the list that is really sent - the cheapest ones."""
+    out = []
+    # (price, arch, gen, zone) per type, A cheapest .. E dearest
+    catalogs = {
+        "dear": [(50, "amd64", "2", "a"), (60, "amd64", "2", "a"), (70, "amd64", "2", "a"), (300, "arm64", "3", "b"), (400, "arm64", "4", "c")],
+        "cheap": [(50, "amd64", "2", "a"), (60, "arm64", "3", "b"), (70, "amd64", "2", "a"), (300, "amd64", "2", "a"), (400, "amd64", "2", "a")],
+        "mixed": [(50, "amd64", "2", "a"), (60, "amd64", "2", "a"), (70, "arm64", "3", "b"), (300, "amd64", "2", "a"), (400, "arm64", "4", "c")],
+    }
+    orders = {"cheapfirst": [0, 1, 2, 3, 4], "dearfirst": [4, 3, 2, 1, 0], "rarefirst": [3, 0, 1, 2, 4], "interleaved": [0, 3, 1, 4, 2],
+              "shuffled": [1, 4, 0, 3, 2]}
+    for cn, cat in catalogs.items():
+        for on, order in orders.items():
+            types = [_type("ABCDE"[i], 4000, 8192, [_off(cat[i][3], "od", cat[i][0])], arch=cat[i][1], gen=cat[i][2]) for i in order]
+            for key in ("arch", "gen", "zone"):
+                for mt in (2, 3):
+                    for pol in ("Strict", "BestEffort"):
+                        pool = _pool("p0", 0, reqs=[{"key": key, "op": "Exists", "vals": [], "n": 0, "min": 2}])
+                        out.append(_scn("cell/truncate-floor/%s-%s-%s-max%d-%s" % (cn, on, key, mt, pol), types, [pool],
+                                        [dict(sc.plain_pod("w0", 3000, 256))], maxTypes=mt, minValues=pol))
+    return out
 
 
 # ---------------------------------------------------------------- shared pipeline of checks/C19.py and checks/c13_sched_stage.py
@@ -330,7 +366,7 @@ def cells():
 MAP_FIELDS = {"labels", "sel"}
 OPTION_GRID = [{"minValues": mv, "maxTypes": mt, "workers": w} for mv in ("Strict", "BestEffort") for mt in (0, 1, 2) for w in (1, 2, 8)]
 ALL_WEAK = ["order", "lowest", "ready", "chargeSum", "truncFirst", "rankDearest", "rankUnavailable", "truncMin", "ovhPerPod", "ovhNone",
-            "staleHash", "simKeys", "noStartup", "noRelax"]
+            "staleHash", "simKeys", "noStartup", "noRelax", "truncMinOrder"]
 INVS = ("Inv_C19_HighestWeightFeasible", "Inv_C19_CheapestPrefix", "Inv_C13_TypesSubsetMinValues", "Inv_C13_Requests", "Inv_C13_Template")
 # fidelity classes that were analysed on the unchanged tree and are NOT model gaps (see the C19 notes in the manifest)
 EXPLAINED_FIDELITY = {("Fid_C19_Chosen", "chosen-pool-node-limit-exhausted-for-spec")}
